@@ -95,15 +95,25 @@ Definition mk_Clip (id : ident) (s e : Q) : res segclip :=
 (* ================= second batch of units (C19 encoders, C04 validators, C05 features) ================= *)
 
 (* ---- loops that update variables of the enclosing scope and / or return from the function ---- *)
+(* what one iteration answers: go on with a new state, leave the loop (break), or return from the function *)
+Inductive bres (S R : Type) := BNext (s : S) | BBreak (s : S) | BRet (r : R).
+Arguments BNext {S R} s.
+Arguments BBreak {S R} s.
+Arguments BRet {S R} r.
+(* what the loop as a whole answers *)
 Inductive lres (S R : Type) := LDone (s : S) | LRet (r : R).
 Arguments LDone {S R} s.
 Arguments LRet {S R} r.
 
-Fixpoint fold_loop {A S R} (l : list A) (s : S) (body : S -> A -> res (lres S R)) : res (lres S R) :=
+Fixpoint fold_loop {A S R} (l : list A) (s : S) (body : S -> A -> res (bres S R)) : res (lres S R) :=
   match l with
   | [] => Ok (LDone s)
   | x :: r =>
-      bind (body s x) (fun o => match o with LDone s' => fold_loop r s' body | LRet v => Ok (LRet v) end)
+      bind (body s x) (fun o => match o with
+                                | BNext s' => fold_loop r s' body
+                                | BBreak s' => Ok (LDone s')
+                                | BRet v => Ok (LRet v)
+                                end)
   end.
 
 (* x[i] = v on a list (IndexError = EOther); np.zeros *)
@@ -144,3 +154,14 @@ Definition shp_geoms (s : shp) : list unit :=
   | _ => []
   end.
 Definition mk_feature (n : fname) (v : Q) : fname * Q := (n, v).
+
+(* ---- dicts keyed by identifiers: an association list in insertion order; a later entry for a key
+   replaces the earlier one, so a lookup takes the LAST entry with that key (KeyError = EKey) ---- *)
+Definition py_dict_mem {A} (k : Z) (d : list (Z * A)) : bool := existsb (fun kv => Z.eqb (fst kv) k) d.
+Fixpoint py_dict_find {A} (d : list (Z * A)) (k : Z) : option A :=
+  match d with
+  | [] => None
+  | (k', v) :: r => match py_dict_find r k with Some w => Some w | None => if Z.eqb k' k then Some v else None end
+  end.
+Definition py_dict_get {A} (d : list (Z * A)) (k : Z) : res A :=
+  match py_dict_find d k with Some v => Ok v | None => Err EKey end.
